@@ -6,14 +6,20 @@ reconstruction law on the (removed, added, changed) arguments seen by raw
 notifiers, plus the DictChangeEvent seen by `observe(handler, "<name>.items")`
 handlers.  Two raw recorders are installed: one at index 0 of `notifiers`
 (sees what TraitDict.notify emits) and one at a random position relative to
-the observer notifiers; both must see the same arguments.  Exhaustive single
-operations on dicts of size 0..3 over an 8-key universe, then random 20-op
-histories.  See DESIGN.md section 4 / C06.
+the observer notifiers; both must see the same arguments.  The first one gets
+there by one of five routes (ROUTES), among them "added later to the list the
+constructor was given".  Exhaustive single operations on dicts of size 0..3
+over an 8-key universe, a mapping-class stratum (update / |= with duck-typed
+and registered mappings that are not dicts, keys that look like pairs), then
+random 20-op histories.  See DESIGN.md section 4 / C06.
 """
+import collections
+import collections.abc
 import copy
 import itertools
 import operator
 import pickle
+import types
 
 from traits.api import (HasTraits, Any, CInt, Dict, Instance, Int, TraitError,
                         push_exception_handler)
@@ -34,7 +40,19 @@ META = {
              "position), a keys()/__getitem__-only mapping, the dict itself and malformed "
              "arguments; 8-key universe plus an unhashable key; 0..2 observe('<name>.items') "
              "handlers with a second raw notifier before / between / after the observer "
-             "notifiers; and, for the bare flavours, dicts nobody listens to (built without "
+             "notifiers; the first raw notifier of a bare TraitDict is registered by one of five "
+             "routes (put into td.notifiers afterwards / handed to the constructor in a list / "
+             "added later, through the caller's own reference, to the list the constructor was "
+             "given while that list was empty, shared with a second TraitDict, or already held "
+             "another listener); a mapping-class stratum: update and |= with 0..2 items held by "
+             "duck-typed mappings that offer keys()/items()/[] without being registered with "
+             "collections.abc.Mapping (views + iteration, lists only, one-shot iterators) and by "
+             "registered ones (Mapping subclass, UserDict, OrderedDict, mappingproxy, ChainMap, "
+             "dict subclass, another TraitDict), the model being what a built-in dict reads from "
+             "the same object, over keys that look like pairs (two-character strings, 2-tuples), "
+             "keys colliding after validation and invalid keys/values, from every start dict of "
+             "size 0..2, with and without listeners, and in 3% of the random update/|= "
+             "operations; and, for the bare flavours, dicts nobody listens to (built without "
              "notifiers, or obtained by copy.copy / copy.deepcopy / pickle protocol 0..5, which "
              "drop the notifiers and keep the validators), judged on contents, return value, "
              "exception class and failure atomicity only; every copy (those, d.copy(), copies "
@@ -76,7 +94,17 @@ META = {
                   "reentrant_nested_content_changes": 20000,
                   "reentrant_ops_with_2_or_more_nested": 6500, "reentrant_mirror_events": 31000,
                   "reentrant_quiescence_checks": 26000, "reentrant_exhaustive_cases": 11000,
-                  "reentrant_histories": 1000},
+                  "reentrant_histories": 1000,
+                  # listener added later to the list the constructor was given
+                  "late_listener_evaluations": 230000, "late_listener_empty": 75000,
+                  "late_listener_shared": 75000, "late_listener_prefilled": 75000,
+                  "late_listener_changes_checked": 95000,
+                  # update / |= with mappings that are not dicts
+                  "mapping_class_cases": 32000, "mapping_class_unregistered": 24000,
+                  "mapping_class_registered": 8000, "mapping_class_rejections_checked": 20000,
+                  "mapping_class_pairlike_keys_stored": 8500,
+                  "mapping_class_pairlike_keys_stored_unregistered": 6500,
+                  "history_mapping_class_ops": 1800},
         "thorough": {"evaluations": 2000000, "events_checked": 1000000, "failures_checked": 500000,
                      "observer_events_checked": 800000, "history_ops": 1800000,
                      "raw_pairs_compared": 1400000, "raw_after_observer_compared": 250000,
@@ -92,7 +120,16 @@ META = {
                      "reentrant_nested_content_changes": 130000,
                      "reentrant_ops_with_2_or_more_nested": 70000,
                      "reentrant_mirror_events": 330000, "reentrant_quiescence_checks": 400000,
-                     "reentrant_exhaustive_cases": 11000, "reentrant_histories": 26000},
+                     "reentrant_exhaustive_cases": 11000, "reentrant_histories": 26000,
+                     "late_listener_evaluations": 1000000, "late_listener_empty": 330000,
+                     "late_listener_shared": 330000, "late_listener_prefilled": 330000,
+                     "late_listener_changes_checked": 430000,
+                     "mapping_class_cases": 460000, "mapping_class_unregistered": 135000,
+                     "mapping_class_registered": 320000,
+                     "mapping_class_rejections_checked": 290000,
+                     "mapping_class_pairlike_keys_stored": 125000,
+                     "mapping_class_pairlike_keys_stored_unregistered": 37000,
+                     "history_mapping_class_ops": 49000},
     },
     "exhaustive_parts": "all single operations of the grid in `rule` on every start dict of size "
                         "0..3 over the validated key universe of each flavour",
@@ -142,6 +179,15 @@ KEYS = {
     "tdi": [1, 1.0, True, 2, 2.0, 3, '1', 'x'],
     # a deterministic validator that is not idempotent: raw keys equal stored ones
     "shift": [0, 1, 2, 'a', 'a_', 1.0, True, BADK],
+}
+# keys for the mapping-class stratum: two-element keys (a sequence of pairs may look
+# just like that), keys colliding after validation, an invalid key
+CLASS_KEYS = {
+    "none": ['a', 'ab', (1, 2), 'ba', 1, ('a', 'b')],
+    "reject": ['a', 'ab', (1, 2), 'ba', 1, BADK],
+    "coerce": ['a', 'ab', 'Ab', 'bA', 12, BADK],
+    "shift": [0, 'ab', 'ab_', 'a', 10, BADK],
+    "tdo": [1, '12', 12, '21', 'xy', 3],
 }
 HT = ("tdo", "tdi")                 # flavours living in a HasTraits Dict trait
 NONIDEMPOTENT = ("shift",)
@@ -237,6 +283,115 @@ class Box(HasTraits):
     x = Any()
 
 
+# -- mapping classes handed to update / |= ----------------------------------------
+# dict.update treats ANY object with a keys() method as a mapping.  The first three are
+# duck-typed (never registered with collections.abc.Mapping, no dict in their bases)
+# and, unlike KeysOnly below, offer items() as well.
+class DuckRow:
+    """A read-only record: keys() / items() / [] / iteration over keys / len."""
+
+    def __init__(self, pairs):
+        self._d = dict(pairs)
+
+    def keys(self):
+        return self._d.keys()
+
+    def items(self):
+        return self._d.items()
+
+    def __getitem__(self, k):
+        return self._d[k]
+
+    def __iter__(self):
+        return iter(self._d)
+
+    def __len__(self):
+        return len(self._d)
+
+    def __repr__(self):
+        return "DuckRow(%r)" % (self._d,)
+
+
+class DuckBare:
+    """keys() / items() / [] and nothing else (not iterable, no len); lists."""
+
+    def __init__(self, pairs):
+        self._d = dict(pairs)
+
+    def keys(self):
+        return list(self._d)
+
+    def items(self):
+        return list(self._d.items())
+
+    def __getitem__(self, k):
+        return self._d[k]
+
+    def __repr__(self):
+        return "DuckBare(%r)" % (self._d,)
+
+
+class DuckLazy:
+    """keys() and items() hand out one-shot iterators."""
+
+    def __init__(self, pairs):
+        self._d = dict(pairs)
+
+    def keys(self):
+        return iter(list(self._d))
+
+    def items(self):
+        return ((k, v) for k, v in list(self._d.items()))
+
+    def __getitem__(self, k):
+        return self._d[k]
+
+    def __repr__(self):
+        return "DuckLazy(%r)" % (self._d,)
+
+
+class AbcMapping(collections.abc.Mapping):
+    def __init__(self, pairs):
+        self._d = dict(pairs)
+
+    def __getitem__(self, k):
+        return self._d[k]
+
+    def __iter__(self):
+        return iter(self._d)
+
+    def __len__(self):
+        return len(self._d)
+
+    def __repr__(self):
+        return "AbcMapping(%r)" % (self._d,)
+
+
+class DictSub(dict):
+    pass
+
+
+DUCK_SHAPES = ("duck-row", "duck-bare", "duck-lazy")
+REGISTERED_SHAPES = ("abc", "userdict", "ordered", "proxy", "chain", "subclass", "traitdict")
+CLASS_SHAPES = DUCK_SHAPES + REGISTERED_SHAPES
+MAPPING_CLASSES = {
+    "duck-row": DuckRow, "duck-bare": DuckBare, "duck-lazy": DuckLazy, "abc": AbcMapping,
+    "userdict": lambda p: collections.UserDict(dict(p)),
+    "ordered": collections.OrderedDict,
+    "proxy": lambda p: types.MappingProxyType(dict(p)),
+    "chain": lambda p: collections.ChainMap(dict(p[:1]), dict(p[1:])),
+    "subclass": DictSub,
+    "traitdict": lambda p: TraitDict(dict(p)),
+}
+
+
+def builtin_reading(shape, payload):
+    """The items a built-in dict takes from such an argument, in its order."""
+    tmp = {}
+    tmp.update(MAPPING_CLASSES[shape](list(payload)))
+    return list(tmp.items())
+
+
 class KeysOnly:
     """A mapping in dict.update's own sense: keys() and __getitem__ only."""
 
@@ -258,12 +413,27 @@ class KeysOnly:
 OBS_CONFIGS = [(0, "first"), (1, "first"), (1, "last"), (2, "mid"), (2, "last"), (2, "first")]
 
 
+# how the first raw recorder gets onto a bare TraitDict
+#   insert         put into td.notifiers after construction
+#   ctor           the constructor receives [recorder]
+#   late-empty     the constructor receives the caller's (still empty) list; the
+#                  recorder is added afterwards through the caller's reference
+#   late-shared    the same, the caller's list also serving a second TraitDict
+#   late-prefilled the same, the list already holding another listener
+ROUTES = ("insert", "ctor", "late-empty", "late-shared", "late-prefilled")
+LATE_ROUTES = ROUTES[2:]
+
+
 class Env:
     """One dict under test with its recorders."""
 
     def __init__(self, flavour, pairs, n_obs, slot, ctor_notifier=False, silent=False, td=None):
         """silent: no notifier of any kind is ever attached (`notifiers` stays
-        empty); td: wrap an existing TraitDict (a copy) instead of building one."""
+        empty); td: wrap an existing TraitDict (a copy) instead of building one;
+        ctor_notifier: False / True / one of ROUTES."""
+        route = {False: "insert", True: "ctor"}.get(ctor_notifier, ctor_notifier)
+        self.route = "insert"
+        self.registry = self.sibling = None
         self.flavour = flavour
         self.silent = silent
         self.copied = td is not None
@@ -280,6 +450,7 @@ class Env:
         def rec2(d, removed, added, changed):
             self.raw2.append((d is self.td, dict(removed), dict(added), dict(changed)))
 
+        self.rec1 = rec1
         pre = False
         if silent or td is not None:
             assert flavour not in HT and not n_obs
@@ -306,10 +477,20 @@ class Env:
             kw = {}
             if flavour != "none":
                 kw = {"key_validator": KV[flavour], "value_validator": VV[flavour]}
-            if ctor_notifier:
+            self.route = route
+            if route == "ctor":
                 kw["notifiers"] = [rec1]
                 pre = True
-            self.td = TraitDict(dict(pairs), **kw)
+            elif route in LATE_ROUTES:
+                self.registry = [self._bystander] if route == "late-prefilled" else []
+                kw["notifiers"] = self.registry
+                pre = True
+            if route == "late-shared" and not pairs:
+                self.td = TraitDict(**kw)
+            else:
+                self.td = TraitDict(dict(pairs), **kw)
+            if route == "late-shared":
+                self.sibling = TraitDict(**kw)
             path = "x.items"
             if n_obs:
                 self.root = Box(x=self.td)
@@ -335,7 +516,13 @@ class Env:
             self.after_observer = bool(obs_idx) and pos > obs_idx[0]
         if not pre:
             ns.insert(0, rec1)
+        elif self.registry is not None:
+            self.registry.insert(0, rec1)      # through the caller's reference
         self.observers_hooked = len(obs_idx)
+
+    @staticmethod
+    def _bystander(d, removed, added, changed):
+        pass
 
     def _handler(self, i):
         log = self.obs_logs[i]
@@ -361,6 +548,8 @@ def build_other(shape, payload, target):
         return (p for p in list(payload))
     if shape == "keysonly":
         return KeysOnly(payload)
+    if shape in MAPPING_CLASSES:
+        return MAPPING_CLASSES[shape](list(payload))
     if shape == "self":
         return target
     return payload                      # "raw": a malformed literal
@@ -399,6 +588,8 @@ def model_other(shape, payload, m, skv, svv):
         src = list(m.items())
     elif shape in ("map", "keysonly"):
         src = list(dict(payload).items())
+    elif shape in MAPPING_CLASSES:
+        src = builtin_reading(shape, payload)
     elif shape in ("pairs", "gen"):
         src = list(payload)
     else:
@@ -457,6 +648,8 @@ def stored_parts(op, m):
             return list(m.keys()), list(m.values())
         if shape in ("map", "keysonly"):
             src = list(dict(payload).items())
+        elif shape in MAPPING_CLASSES:
+            src = builtin_reading(shape, payload)
         else:
             try:
                 src = list(payload)
@@ -540,6 +733,8 @@ def event_law(before, after, r, a, c):
 def op_name(op):
     if op[0] in ("update", "ior") and op[1] == "keysonly":
         return "keysonly-mapping"
+    if op[0] in ("update", "ior") and op[1] in DUCK_SHAPES:
+        return "duck-mapping"
     if op[0] in ("update", "ior") and op[1] == "self":
         return "%s-self" % op[0]
     return op[0]
@@ -712,7 +907,21 @@ def check_one(ctx, env, model, op):
                 ctx.count("silent_bulk_rejections_checked")
     if env.copied:
         ctx.count("ops_on_copies")
-    if complaint is None and not env.silent:
+    if op[0] in ("update", "ior") and op[1] in MAPPING_CLASSES:
+        ctx.count("mapping_class_evaluations")
+    late = env.registry is not None
+    if late:
+        ctx.count("late_listener_evaluations")
+        ctx.count("late_listener_" + env.route[5:])
+        if changed:
+            ctx.count("late_listener_changes_checked")
+    if complaint is None and late and not env.raw1 and (changed or env.raw2) \
+            and not any(n is env.rec1 for n in env.td.notifiers):
+        # the listener was added to the list the constructor was given and the
+        # dict does not call it
+        prefix = "ctor-notifier-list/" + env.route
+        complaint = "listener-added-later-not-notified"
+    elif complaint is None and not env.silent:
         if any(not e[0] for e in env.raw1 + env.raw2):
             complaint = "notifier-got-another-dict"
         elif env.has_raw2:
@@ -762,21 +971,38 @@ def check_one(ctx, env, model, op):
         evshape = tuple((min(len(r), 2), min(len(a), 2), min(len(c), 2)) for r, a, c in evs[:2])
         ctx.sig(flavour, op_name(op), arg_shape(op), min(len(before), 3),
                 rr[0] if rr[0] == "ok" else rr[1].__name__, evshape, bad_k, bad_v,
-                env.n_obs, env.after_observer, env.silent, env.copied)
+                env.n_obs, env.after_observer, env.silent, env.copied, late)
     if complaint:
         key = "%s/%s" % (prefix or op_name(op), complaint)
         ctx.violation(
             key, "%s on %s dict: op=%r model=%r real=%r raw1=%r raw2=%r observers=%r before=%r "
                  "after=%r (observers=%d, 2nd raw notifier after an observer: %s, no notifier "
-                 "attached: %s, dict is a copy: %s)"
+                 "attached: %s, dict is a copy: %s, first raw notifier registered by: %s)"
             % (complaint, flavour, op, rm, rr, env.raw1[:2], env.raw2[:2],
                [lg[:2] for lg in env.obs_logs], before, after, env.n_obs, env.after_observer,
-               env.silent, env.copied),
+               env.silent, env.copied, env.route),
             {"flavour": flavour, "before": before, "op": op, "raw1": env.raw1[:3],
              "raw2": env.raw2[:3], "observer_events": [lg[:3] for lg in env.obs_logs],
              "after": after, "model_outcome": rm, "real_outcome": rr,
              "n_observers": env.n_obs, "raw2_slot": env.slot, "silent": env.silent,
-             "copied": env.copied})
+             "copied": env.copied, "route": env.route})
+    return complaint
+
+
+def check_mapping_class(ctx, env, model, op):
+    """check_one for the mapping-class stratum, with its counters."""
+    shape, payload = op[1], op[2]
+    complaint = check_one(ctx, env, model, op)
+    ctx.count("mapping_class_cases")
+    ctx.count("mapping_class_unregistered" if shape in DUCK_SHAPES else "mapping_class_registered")
+    if complaint is None:
+        if any(_invalid(KV[env.flavour], k) or _invalid(VV[env.flavour], v) for k, v in payload):
+            ctx.count("mapping_class_rejections_checked")
+        elif any(pairlike(k) for k, v in payload):
+            # judged equal to the built-in: the key went in as a key
+            ctx.count("mapping_class_pairlike_keys_stored")
+            if shape in DUCK_SHAPES:
+                ctx.count("mapping_class_pairlike_keys_stored_unregistered")
     return complaint
 
 
@@ -1129,11 +1355,11 @@ def validated_universe(flavour):
     return out
 
 
-def start_universe(flavour):
+def start_universe(flavour, keys=None):
     """Raw keys that are valid and whose validated forms are pairwise distinct.  For
     idempotent validators the validated form itself is used."""
     out, seen = [], []
-    for k in KEYS[flavour]:
+    for k in (keys or KEYS[flavour]):
         try:
             vk = KV[flavour](k)
         except TraitError:
@@ -1146,6 +1372,7 @@ def start_universe(flavour):
 
 
 START_UNIVERSE = {f: start_universe(f) for f in KEYS}
+CLASS_START_UNIVERSE = {f: start_universe(f, CLASS_KEYS[f]) for f in CLASS_KEYS}
 
 
 def model_of(flavour, state):
@@ -1153,8 +1380,8 @@ def model_of(flavour, state):
     return {KV[flavour](k): VV[flavour](v) for k, v in state}
 
 
-def start_states(flavour, smax):
-    uni = START_UNIVERSE[flavour]
+def start_states(flavour, smax, uni=None):
+    uni = uni or START_UNIVERSE[flavour]
     for n in range(0, smax + 1):
         for combo in itertools.combinations(uni, n):
             yield [(k, V(i)) for i, k in enumerate(combo)]
@@ -1212,6 +1439,35 @@ def single_ops(flavour):
         for lit in (5, None, [1], [(k0,)], [(k0, N, N)], ["ab"], [(k0, N), (k0,)],
                     [(UNHASH, N)], [(k0, N), 3]):
             yield (name, "raw", lit)
+
+
+def pairlike(k):
+    """A key that a reader expecting (key, value) pairs would take for one."""
+    return isinstance(k, (str, tuple)) and len(k) == 2
+
+
+def class_ops(flavour):
+    """update / |= payloads for the mapping-class stratum (the class is chosen by
+    the caller): 0..2 distinct keys, an invalid value at each position."""
+    keys = CLASS_KEYS[flavour]
+    has_bad = flavour != "none"
+    for name in ("update", "ior"):
+        yield (name, [])
+        for n in (1, 2):
+            for ks in itertools.permutations(keys, n):
+                if n == 2 and ks[0] == ks[1]:
+                    continue
+                payload = [(k, V(200 + i)) for i, k in enumerate(ks)]
+                yield (name, payload)
+                if has_bad:
+                    for pos in range(n):
+                        p = list(payload)
+                        p[pos] = (p[pos][0], BADV)
+                        yield (name, p)
+                if flavour == "coerce":
+                    p = list(payload)
+                    p[-1] = (p[-1][0], 9)
+                    yield (name, p)
 
 
 def random_value(rng, flavour):
@@ -1281,6 +1537,14 @@ def random_op(rng, flavour, model, allow_collide):
         return (name, "gen", pairs(4))
     if r < 0.94:
         return (name, "self", None)
+    if r < 0.97:
+        # a mapping of some class other than dict; two-element keys among the keys
+        pool = keys + CLASS_KEYS.get(flavour, [])
+        p = [(rng.choice(pool), val()) for _ in range(rng.randint(0, 3))]
+        seen = []
+        p = [(k, v) for k, v in p if not any(k == s for s in seen) and not seen.append(k)]
+        shape = rng.choice(DUCK_SHAPES) if rng.random() < 0.6 else rng.choice(REGISTERED_SHAPES)
+        return (name, shape, p)
     k0 = rng.choice(keys)
     return (name, "raw", rng.choice([5, None, [1], [(k0,)], [(k0, V(5), V(6))], ["ab"],
                                      [(k0, V(7)), (k0,)], [(UNHASH, V(8))]]))
@@ -1308,8 +1572,8 @@ def run(ctx):
                 continue
             try:
                 for g, op in batch:
-                    for n_obs, slot in OBS_CONFIGS[:5]:
-                        env = Env(flavour, state, n_obs, slot, ctor_notifier=bool(g % 2))
+                    for ci, (n_obs, slot) in enumerate(OBS_CONFIGS[:5]):
+                        env = Env(flavour, state, n_obs, slot, ctor_notifier=ROUTES[(g + ci) % 5])
                         model = model_of(flavour, state)
                         check_one(ctx, env, model, op)
                         ctx.count("exhaustive_cases")
@@ -1345,6 +1609,44 @@ def run(ctx):
                             isolation_violation(ctx, mode, "original", what, "copy", env, model, op)
                 if batch:
                     ctx.sample({"flavour": flavour, "start": state, "op": batch[len(batch) // 2][1]})
+            finally:
+                ctx.end()
+    # ---- mapping classes: update / |= with mappings that are not dicts -----------
+    # duck-typed ones offering keys() / items() / [] without being registered with
+    # collections.abc.Mapping, and registered ones; keys that look like pairs
+    gi = 0
+    full = not ctx.quick
+    for flavour in ("coerce", "tdo", "reject", "none", "shift"):
+        ops = list(class_ops(flavour))
+        for si, state in enumerate(start_states(flavour, 2, CLASS_START_UNIVERSE[flavour])):
+            batch = []
+            for op in ops:
+                gi += 1
+                if ctx.mine(gi // 64):
+                    batch.append((gi, op))
+            if not ctx.begin("mapcls:%s:%d" % (flavour, si),
+                             {"flavour": flavour, "state": state, "ops": len(batch)}):
+                continue
+            try:
+                for g, (name, payload) in batch:
+                    if full:
+                        shapes = CLASS_SHAPES
+                        configs = list(enumerate(OBS_CONFIGS))
+                    else:
+                        shapes = DUCK_SHAPES + (REGISTERED_SHAPES[g % len(REGISTERED_SHAPES)],)
+                        configs = [(g % 6, OBS_CONFIGS[g % 6])]
+                    for xi, shape in enumerate(shapes):
+                        op = (name, shape, payload)
+                        for ci, (n_obs, slot) in configs:
+                            env = Env(flavour, state, n_obs, slot,
+                                      ctor_notifier=ROUTES[(g + ci + xi) % 5])
+                            check_mapping_class(ctx, env, model_of(flavour, state), op)
+                        if flavour not in HT and (full or (g + xi) % 4 == 0):
+                            env = Env(flavour, state, 0, "first", silent=True)
+                            check_mapping_class(ctx, env, model_of(flavour, state), op)
+                if batch:
+                    ctx.sample({"stratum": "mapping-class", "flavour": flavour, "start": state,
+                                "op": batch[len(batch) // 2][1]})
             finally:
                 ctx.end()
     # ---- re-entrant listeners: exhaustive single operations x fixed reactions ----
@@ -1443,7 +1745,11 @@ def run(ctx):
                 env = Env(flavour, state, 0, "first", silent=True)
                 ctx.count("histories_started_silent")
             else:
-                env = Env(flavour, state, n_obs, slot, ctor_notifier=rng.random() < 0.5)
+                route = rng.random() < 0.5
+                rr = ctx.rng("route", h)
+                if rr.random() < 0.3:
+                    route = rr.choice(LATE_ROUTES)
+                env = Env(flavour, state, n_obs, slot, ctor_notifier=route)
             model = model_of(flavour, state)
             ops = []
             ctx.count("histories_" + stratum)
@@ -1467,6 +1773,8 @@ def run(ctx):
                     op = random_op(rng, flavour, tmodel, stratum == "collide")
                     ops.append(("copy" if on_copy else "original",) + op)
                     ctx.count("history_ops")
+                    if op[0] in ("update", "ior") and op[1] in MAPPING_CLASSES:
+                        ctx.count("history_mapping_class_ops")
                     stop = bool(check_one(ctx, tenv, tmodel, op))
                     if not stop:
                         ctx.ev()
@@ -1494,6 +1802,8 @@ def run(ctx):
                     op = random_op(rng, flavour, model, stratum == "collide")
                     ops.append(op)
                     ctx.count("history_ops")
+                    if op[0] in ("update", "ior") and op[1] in MAPPING_CLASSES:
+                        ctx.count("history_mapping_class_ops")
                     stop = bool(check_one(ctx, env, model, op))
                     if side is not None and not stop:
                         ctx.ev()
